@@ -190,18 +190,20 @@ def run(ctx, chk, tier="quick"):
         return rets[0].value if len(rets) == 1 and isinstance(rets[0].value, ast.Call) else None
 
     rc, ri = ret_call(base_call), ret_call(base_int)
-    ok = False
-    desc = "?"
-    if rc is not None and ri is not None:
-        recv_c = dotted_name(rc.func)
-        recv_i = dotted_name(ri.func)
+    recv_c = dotted_name(rc.func) if rc is not None else None
+    recv_i = dotted_name(ri.func) if ri is not None else None
+    readable = rc is not None and ri is not None and recv_c is not None and recv_c.startswith("self.") and recv_i is not None and recv_i.startswith("self.") \
+        and all(isinstance(a, ast.Name) for a in list(rc.args) + list(ri.args)) and not rc.keywords and not ri.keywords
+    if not readable:
+        chk.indeterminate("C14.O4", where_of(base_int, base_int.node), "value / integral of the specific yield are not plain delegations `return self.<attr>(...)` with the parameters as arguments")
+    else:
         desc = "value -> %s(...), integral -> %s(...)" % (recv_c, recv_i)
-        ok = recv_c is not None and recv_i == recv_c + ".integrate" \
-            and len(rc.args) == 1 and isinstance(rc.args[0], ast.Name) and rc.args[0].id == base_call.params[1] \
-            and len(ri.args) == 2 and [a.id if isinstance(a, ast.Name) else None for a in ri.args] == base_int.params[1:3]
-    chk.ob("C14.O4", ok, where_of(base_int, base_int.node), desc,
-           "both delegate to the same spline attribute, limits passed in order",
-           key="SpecificYield|delegation", why="integrating a different function breaks W' = Sy")
+        ok = recv_i == recv_c + ".integrate" \
+            and len(rc.args) == 1 and rc.args[0].id == base_call.params[1] \
+            and len(ri.args) == 2 and [a.id for a in ri.args] == base_int.params[1:3]
+        chk.ob("C14.O4", ok, where_of(base_int, base_int.node), desc,
+               "both delegate to the same spline attribute, limits passed in order",
+               key="SpecificYield|delegation", why="integrating a different function breaks W' = Sy")
     # subclasses do not override value/integral
     m = ctx.repo.module("specific_yield")
     for cname, cls in m.classes.items():
